@@ -198,7 +198,10 @@ def plan(tier):
             (30, 30, 0.5, 0, 'est', 1),
         ]
     # the confirming KEEPALIVE arrives late (but inside the hold time): the hold timer must restart from it
-    p += [(9, 9, 0.05, 0, 'slow-ka:4.5', 1), (9, 9, 0.05, 0, 'slow-ka:7.5', 2 if tier == 'quick' else 3), (3, 9, 0.05, 0, 'slow-ka:2.5', 2), (9, 9, 0.95, 0, 'slow-ka:8.5', 1)]
+    if tier == 'quick':
+        p += [(9, 9, 0.05, 0, 'slow-ka:4.5', 1), (9, 9, 0.05, 0, 'slow-ka:7.5', 1), (3, 9, 0.05, 0, 'slow-ka:2.5', 1), (9, 9, 0.95, 0, 'slow-ka:8.5', 1)]
+    else:
+        p += [(9, 9, 0.05, 0, 'slow-ka:4.5', 2), (9, 9, 0.05, 0, 'slow-ka:7.5', 3), (3, 9, 0.05, 0, 'slow-ka:2.5', 3), (9, 9, 0.95, 0, 'slow-ka:8.5', 2)]
     p += [(9, 9, 0.05, 0, 'no-open', 0), (9, 9, 0.05, 0, 'no-keepalive', 0), (3, 3, 0.05, 0, 'no-keepalive', 0)]
     return p
 
@@ -212,7 +215,7 @@ def run(ctx: core.Ctx) -> None:
                 'plus single 30-UPDATE bursts) on a 1-second grid over 3H+5 virtual seconds; non-trivial = distinct (H, scenario, closed, notification, keepalive count) outcome')
     ctx.assumptions += ['allowance on every deadline: 2 s integer-clock granularity + 0.2 s loop period', 'time only moves when the controller says so']
     pool = mp.Pool(min(16, os.cpu_count() or 1))
-    budget = ctx.budget_s or (110 if ctx.tier == 'quick' else 1700)
+    budget = ctx.budget_s or (170 if ctx.tier == 'quick' else 1700)
     try:
         for ours, theirs, phase, nroutes, scenario, k in plan(ctx.tier):
             H = min(ours, theirs) if ours and theirs else 0
